@@ -56,6 +56,11 @@ func TestC12(t *testing.T) {
 	}
 	res.AddExtra("instances_started", len(jobs))
 	r.RunAll(jobs, hx.SelfTest())
+	if !hx.SelfTest() && hx.Replay() == "" {
+		if err := TemplateFailurePart(res, r.Scratch); err != nil && res.Infra == "" {
+			res.Infra = err.Error()
+		}
+	}
 
 	if r.Tr != nil {
 		r.Tr.TW.Close()
